@@ -42,6 +42,8 @@ pub enum Conduit {
     /// `!=` derived from `@==`
     OpNe,
     Display,
+    /// `@display` reached while a list holding the object is rendered
+    DisplayInList,
     GenFor,
     GenNext,
     GenFold,
@@ -115,6 +117,7 @@ pub const CONDUITS: &[Conduit] = &[
     Conduit::OpGt,
     Conduit::OpNe,
     Conduit::Display,
+    Conduit::DisplayInList,
     Conduit::GenFor,
     Conduit::GenNext,
     Conduit::GenFold,
@@ -402,7 +405,7 @@ impl<'a> Gen<'a> {
             // the argument must be a literal (it is spliced into a string of source text)
             Conduit::KotoRun => Expr::Int(self.r.irange(0, 9)),
             // these conduits take no argument
-            Conduit::Display | Conduit::OpNegate | Conduit::OpSize => Expr::Int(0),
+            Conduit::Display | Conduit::DisplayInList | Conduit::OpNegate | Conduit::OpSize => Expr::Int(0),
             _ => arg,
         };
         self.p.n_calls += 1;
@@ -868,6 +871,7 @@ impl Printer {
                     Conduit::OpGt => format!("(if OPLE{} > {a} then 1 else 0)", c.func),
                     Conduit::OpNe => format!("(if OPE{} != {a} then 1 else 0)", c.func),
                     Conduit::Display => format!("(size 'x{{OPD{}}}y')", c.func),
+                    Conduit::DisplayInList => format!("(size 'x{{[OPD{}]}}y')", c.func),
                     Conduit::GenFor => format!("GENSUM{}({a})", c.func),
                     Conduit::GenNext => format!("GEN{}({a}).next().get()", c.func),
                     Conduit::GenFold => format!("GEN{}({a}).fold(0, |acc, x| acc + x)", c.func),
